@@ -9,6 +9,7 @@ On success copies patch.diff, the demo and meta.json (+ confirmation record) to 
 import json, os, subprocess, sys, shutil, glob
 src, dest = sys.argv[1], sys.argv[2]
 WT = os.environ.get('CONFIRM_WT', '/tmp/confirm')
+RACE = '-race' if os.environ.get('CONFIRM_RACE') else ''  # concurrency demos are run under the race detector
 env = dict(os.environ, GOFLAGS='-mod=mod', GOPROXY='off', GOSUMDB='off', GOTOOLCHAIN='local')
 def sh(cmd, **kw):
     return subprocess.run(cmd, shell=True, cwd=WT, env=env, capture_output=True, text=True, **kw)
@@ -36,7 +37,7 @@ if not pkgdir or not os.path.isdir(f'{WT}/{pkgdir}'):
     print('REJECT: cannot determine demo package dir from', meta.get('demo_location')); sys.exit(1)
 target = f'{WT}/{pkgdir}/{os.path.basename(demo)}'
 shutil.copy(demo, target)
-r = sh(f'go test -vet=off -count=1 ./{pkgdir}/', timeout=1500)
+r = sh(f'go test {RACE} -vet=off -count=1 ./{pkgdir}/', timeout=1500)
 rec['demo_clean'] = 'pass' if r.returncode == 0 else 'FAIL'
 if r.returncode != 0:
     print('REJECT: demo fails on clean HEAD\n', r.stdout[-1500:], r.stderr[-500:]); sys.exit(1)
@@ -44,7 +45,7 @@ sh(f'git apply {patch}')
 r = sh('go build ./...')
 if r.returncode != 0:
     print('REJECT: patched tree does not build', r.stderr[-800:]); sys.exit(1)
-r = sh(f'go test -vet=off -count=1 ./{pkgdir}/', timeout=1500)
+r = sh(f'go test {RACE} -vet=off -count=1 ./{pkgdir}/', timeout=1500)
 rec['demo_patched'] = 'pass' if r.returncode == 0 else 'fail'
 rec['demo_patched_output_tail'] = (r.stdout + r.stderr)[-1200:]
 if r.returncode == 0:
